@@ -104,6 +104,40 @@ def exec_configs(case):
     return [ok("C08.configs", "configs:same")]
 
 
+def exec_vf_seeds(case):
+    """a variable font with two axes (three masters), built in one directory under several hash seeds: the same bytes every time"""
+    import toml
+    from vmc.drive import cli
+    from vmc.oracles import aff
+    from vmc.oracles.scene import Glyph
+    from vmc.props import c18
+
+    masters, _ = c18.master_scenes({"scene": "three_glyphs", "variant": "translate", "masters": "two_default_min"})
+    masters = list(masters) + [[Glyph(g.cps, g.vb, [c18._move(n, aff.tr(-4, 5)) for n in g.nodes]) for g in masters[0]]]
+    locs = [{"wght": 300, "wdth": 100}, {"wght": 700, "wdth": 100}, {"wght": 300, "wdth": 125}]
+    w = cli.mkscratch("c08vf")
+    try:
+        cfg = {"output_file": "VF.ttf", "color_format": "glyf_colr_1", "master": {},
+               "axis": {"wght": {"name": "Weight", "default": 300}, "wdth": {"name": "Width", "default": 100}}}
+        for i, gl in enumerate(masters):
+            files = cli.write_sources(w / f"m{i}", [(f"emoji_u{'_'.join('%04x' % c for c in g.cps)}.svg", g.svg()) for g in gl])
+            cfg["master"][f"m{i}"] = {"style_name": f"M{i}", "position": locs[i], "srcs": [str(f) for f in files]}
+        (w / "vf.toml").write_text(toml.dumps(cfg))
+        shas = {}
+        for seed in case["seeds"]:
+            shutil.rmtree(w / "build", ignore_errors=True)
+            r = cli.nanoemoji(w, [w / "vf.toml"], hashseed=str(seed), timeout=900)
+            out = w / "build" / "VF.ttf"
+            if r.returncode != 0 or not out.exists():
+                return [bad("C08.builds", f"two-axis variable font under PYTHONHASHSEED={seed}: exit {r.returncode}: {(r.stderr or '')[-300:]}")]
+            shas[seed] = hashlib.sha256(out.read_bytes()).hexdigest()[:16]
+        if len(set(shas.values())) != 1:
+            return [bad("C08.same-bytes", f"two-axis variable font: bytes depend on PYTHONHASHSEED: {shas}")]
+        return [ok("C08.configs", "vf-two-axes:same")]
+    finally:
+        shutil.rmtree(w, ignore_errors=True)
+
+
 def one_build(case):
     from vmc.drive import cli
 
@@ -301,6 +335,8 @@ def run_schedule(case):
 def execute(case):
     if case.get("kind") == "configs":
         return exec_configs(case)
+    if case.get("kind") == "vf_seeds":
+        return exec_vf_seeds(case)
     if case.get("kind") == "schedule":
         return run_schedule(case)
     return one_build(case)
@@ -394,6 +430,8 @@ def run(report, tier, only=None):
 
         pairs = [("base", "noclip"), ("base", "picosvg"), ("noclip", "metrics")] if tier == "quick" else list(itertools.combinations(["base", "noclip", "picosvg", "metrics", "noreuse"], 2))
         ccases = [{"kind": "configs", "pair": list(p_)} for p_ in pairs]
+        # a multi-master configuration with two axes under hash seeds that order two short strings both ways
+        ccases.append({"kind": "vf_seeds", "seeds": [0, 1, 3, 4] if tier == "quick" else list(range(8))})
         listing.run(report, ccases, execute, timeout=900, jobs=4)
     # schedules
     if only in (None, "sched"):
@@ -463,7 +501,7 @@ def run(report, tier, only=None):
     report.extra["deviation_bound"] = k
     report.rule = (
         "E1 over {argument permutation (all %d!), hash seed (one per iteration order of the 3-element path / glyph-name / file-name sets, all orders "
-        "realised), ninja -j1/-j2/-j16, build dir (default/nested/with space), cwd (work/src//), source dir moved, relative arguments, glob in TOML} + both orders of two configuration files built in one invocation "
+        "realised), ninja -j1/-j2/-j16, build dir (default/nested/with space), cwd (work/src//), source dir moved, relative arguments, glob in TOML} + both orders of two configuration files built in one invocation + a two-axis variable font under 4 (thorough: 8) hash seeds "
         "with <= %d deviations x {glyf_colr_1, picosvg, cbdt}; E4: every linear extension of the ninja graph driven one edge at a time (quick: 2 sources; "
         "thorough: 3 sources), plus sleep-set representatives for the bitmap chain with strace footprints; oracle: one sha256 per format; "
         "distinct = number of distinct fonts per family (must be 1)" % (n, k)
